@@ -246,7 +246,16 @@ static struct {
     const char *path_ptr; char *path_copy; char **argv_ptr, **argv_copy, **envp_ptr, **envp_copy; char **environ_ptr; char **environ_copy;
     int path_same_ptr, path_eq, argv_same_ptr, argv_eq, envp_same_ptr, envp_eq, environ_same_ptr, environ_eq, kind_ok;
 } R;
-static int snapshot_at_entry = 1, want_digest = 0;
+static int snapshot_at_entry = 1, want_digest = 0, lean = 0;
+static size_t lean_log_off = 0, lean_devlog_off = 0, lean_sock_off = 0;
+static void lean_report(void) {
+    size_t n; unsigned char *b = slurp(path_log, &n);
+    if (n < lean_log_off) lean_log_off = 0;
+    out(","); out_bytes("logdelta", b ? b + lean_log_off : (unsigned char *)"", b ? n - lean_log_off : 0); lean_log_off = n; free(b);
+    drain_sock(s_devlog, &a_devlog); drain_sock(s_sock, &a_sock);
+    out(","); out_bytes("devlogdelta", a_devlog.p ? a_devlog.p + lean_devlog_off : (unsigned char *)"", a_devlog.n - lean_devlog_off); lean_devlog_off = a_devlog.n;
+    out(","); out_bytes("sockdelta", a_sock.p ? a_sock.p + lean_sock_off : (unsigned char *)"", a_sock.n - lean_sock_off); lean_sock_off = a_sock.n;
+}
 
 static int rec_cb(int is_execve, const char *path, char *const argv[], char *const envp[]) {
     R.calls++;
@@ -256,7 +265,7 @@ static int rec_cb(int is_execve, const char *path, char *const argv[], char *con
         R.argv_same_ptr = ((char **)argv == R.argv_ptr); R.argv_eq = vec_eq(argv, R.argv_copy);
         if (is_execve) { R.envp_same_ptr = ((char **)envp == R.envp_ptr); R.envp_eq = vec_eq(envp, R.envp_copy); }
         R.environ_same_ptr = (environ == R.environ_ptr); R.environ_eq = vec_eq(environ, R.environ_copy);
-        if (snapshot_at_entry) { out(","); sinks_snapshot("at_entry"); }
+        if (snapshot_at_entry && !lean) { out(","); sinks_snapshot("at_entry"); }
 #ifdef VERIF_HEAPTRACK
         out(",\"heap_delta_live_at_entry\":%ld", ht_live - live0);
 #endif
@@ -276,7 +285,7 @@ static void do_call(char **tok, int ntok) {
     R.path_ptr = path; R.path_copy = strdup(path); R.argv_ptr = argv; R.argv_copy = vec_copy(argv); R.envp_ptr = envp; R.envp_copy = vec_copy(envp);
     R.environ_ptr = environ; R.environ_copy = vec_copy(environ);
     out("{\"call\":\"%s\",\"path_len\":%zu,\"argc\":%ld,\"envc\":%ld", tok[1], strlen(path), na, ne);
-    if (sinks_on) { out(","); sinks_snapshot("before"); }
+    if (sinks_on && !lean) { out(","); sinks_snapshot("before"); }
 #ifdef VERIF_HEAPTRACK
     live0 = ht_live; bytes0 = ht_bytes; ht_on = 1;
 #endif
@@ -287,7 +296,8 @@ static void do_call(char **tok, int ntok) {
     ht_on = 0;
     out(",\"heap_delta_live\":%ld,\"heap_delta_bytes\":%ld", ht_live - live0, ht_bytes - bytes0);
 #endif
-    if (sinks_on) { out(","); sinks_snapshot("after"); }
+    if (sinks_on && !lean) { out(","); sinks_snapshot("after"); }
+    if (sinks_on && lean) lean_report();
     int caller_ok = !strcmp(path, R.path_copy) && vec_eq(argv, R.argv_copy) && (!R.is_execve || vec_eq(envp, R.envp_copy)) && environ == R.environ_ptr && vec_eq(environ, R.environ_copy);
     out(",\"rec_calls\":%d,\"ret\":%d,\"errno\":%d,\"want_ret\":%d,\"want_errno\":%d,\"kind_ok\":%d,\"path_same_ptr\":%d,\"path_eq\":%d,\"argv_same_ptr\":%d,\"argv_eq\":%d,\"envp_same_ptr\":%d,\"envp_eq\":%d,\"environ_same_ptr\":%d,\"environ_eq\":%d,\"caller_unchanged\":%d}\n",
         R.calls, r, e, R.ret, R.err, R.kind_ok, R.path_same_ptr, R.path_eq, R.argv_same_ptr, R.argv_eq, R.envp_same_ptr, R.envp_eq, R.environ_same_ptr, R.environ_eq, caller_ok);
@@ -320,7 +330,7 @@ int main(int argc, char **argv) {
     while (fgets(line, sizeof line, stdin)) {
         size_t L = strlen(line); while (L && (line[L - 1] == '\n' || line[L - 1] == '\r')) line[--L] = 0;
         if (!L || line[0] == '#') continue;
-        char *tok[16]; int nt = 0; char *save = NULL; for (char *t = strtok_r(line, " ", &save); t && nt < 16; t = strtok_r(NULL, " ", &save)) tok[nt++] = t;
+        char *tok[16]; memset(tok, 0, sizeof tok); int nt = 0; char *save = NULL; for (char *t = strtok_r(line, " ", &save); t && nt < 16; t = strtok_r(NULL, " ", &save)) tok[nt++] = t;
         if (!strcmp(tok[0], "W")) { strncpy(W, tok[1], sizeof W - 1); snprintf(verif_cfgpath, 4096, "%s/snoopy.ini", W); }
         else if (!strcmp(tok[0], "sinks")) sinks_setup(nt > 1 ? tok[1] : "pipe");
         else if (!strcmp(tok[0], "cfg")) write_cfg(nt > 1 ? tok[1] : "h");
@@ -333,6 +343,13 @@ int main(int argc, char **argv) {
             else if (!strcmp(tok[1], "set")) { long n; environ = mkvec(tok[2], &n); }
         }
         else if (!strcmp(tok[0], "noentry")) snapshot_at_entry = 0;
+        else if (!strcmp(tok[0], "lean")) lean = atoi(tok[1]);
+        else if (!strcmp(tok[0], "setenv")) { char *k = mkstr(tok[1]); char *v = mkstr(tok[2]); setenv(k, v, 1); free(k); free(v); }
+        else if (!strcmp(tok[0], "mkdir")) { char p[3100]; snprintf(p, sizeof p, "%s/%s", W, tok[1]); mkdir(p, 0755); }
+        else if (!strcmp(tok[0], "lsdir")) { char p[3100]; snprintf(p, sizeof p, "%s/%s", W, tok[1]); DIR *d = opendir(p); struct dirent *e; out("{\"lsdir\":["); int first = 1;
+            while (d && (e = readdir(d))) { if (!strcmp(e->d_name, ".") || !strcmp(e->d_name, "..")) continue; char fp[8000]; snprintf(fp, sizeof fp, "%s/%s", p, e->d_name); size_t n; unsigned char *b = slurp(fp, &n);
+                out("%s{", first ? "" : ","); out_bytes("name", (unsigned char *)e->d_name, strlen(e->d_name)); out(","); out_bytes("content", b ? b : (unsigned char *)"", n); out("}"); free(b); first = 0; if (tok[2] && !strcmp(tok[2], "rm")) unlink(fp); }
+            if (d) closedir(d); out("]}\n"); }
         else if (!strcmp(tok[0], "wantdigest")) want_digest = atoi(tok[1]);
         else if (!strcmp(tok[0], "call")) do_call(tok, nt);
         else if (!strcmp(tok[0], "syms")) load_syms(tok[1]);
